@@ -23,6 +23,9 @@ def main():
         if prop in ("C01", "C03", "C04", "C05", "C07", "C08"):
             from . import check_core
             rc = check_core.run(prop, a.tier, seed)
+        elif prop == "C02":
+            from . import check_c02
+            rc = check_c02.run(prop, a.tier, seed)
         else:
             print("no check for %s" % prop)
             rc = 2
